@@ -26,6 +26,28 @@ def generate(rng, i, tier):
         sc = livegen.gen_live(rng, "C12" if rng.random() < 0.5 else "C11")
         sc.pop("crash_at", None)
         sc.pop("foreign_bets", None)
+        import random
+
+        side = random.Random("c10-live|%d" % rng.getrandbits(32))
+        if side.random() < 0.5:
+            # placement cool-downs in live sessions, and bets of another instance of the strategy (placed a while ago) that
+            # the order stream shows part-way: the cool-down after an own placement must still hold
+            prs = side.choice([0.5, 5.0, 30.0, 600.0])
+
+            def mark(acts):
+                for a in acts:
+                    if a.get("op") == "txn":
+                        mark(a["acts"])
+                    elif a.get("op") == "place":
+                        a["prs"] = prs
+
+            for m in sc["markets"]:
+                for u in m["updates"]:
+                    for key in ("acts", "oacts"):
+                        for acts in (u.get(key) or {}).values():
+                            mark(acts)
+            for _ in range(side.choice([1, 2, 3])):
+                sc["exchange_events"].insert(side.randint(0, len(sc["exchange_events"])), {"type": "sibling_bet", "market": side.randrange(len(sc["markets"])), "strategy": side.randrange(len(sc["strategies"])), "runner": side.randrange(3), "side": side.choice(["BACK", "LAY"]), "age": side.choice([0, 0.4, 45, 600, 4000])})
         return sc
     return lifecycle_common.scenario(rng, ID)
 
